@@ -20,7 +20,7 @@ import (
 )
 
 func init() {
-	fw.Register(&fw.Prop{ID: "C16", Run: run, Sharded: true, QuickSecs: 80, ThoroughSecs: 1500})
+	fw.Register(&fw.Prop{ID: "C16", Run: run, Sharded: true, QuickSecs: 170, ThoroughSecs: 1500})
 }
 
 func mkfs() *memfs.FS {
@@ -282,6 +282,7 @@ func run(ctx *fw.Ctx, rep *fw.Report) {
 		}
 	}
 	rep.Info["scenarios_total"] = len(all)
+	runIsolation(ctx, rep, len(all)) // first: small, and must not fall victim to the tier budget
 	budget := 20 * time.Second
 	if !ctx.Quick() {
 		budget = 3 * time.Minute
@@ -296,5 +297,4 @@ func run(ctx *fw.Ctx, rep *fw.Report) {
 		}
 		fw.RunScenario(ctx, rep, scenario(p), fw.SchedOpts{Budget: budget, ForcePB: -1, Fallback: []int{0, 1}, Deviations: -1})
 	}
-	runIsolation(ctx, rep, len(all))
 }
